@@ -192,7 +192,8 @@ def scenario(desc, nm):
 
         def mk():
             box["g"] = make()
-            return sorted(inv.get(a, a) for a in box["g"].axes) if kind != "sgrid" else len(box["g"].axes)
+            # the order of the axes, in terms of roles, is part of the record: it must not depend on the names
+            return [inv.get(a, a) for a in box["g"].axes] if kind != "sgrid" else len(box["g"].axes)
 
         out.append(("grid", rec(mk, inv)))
         g = box.get("g")
@@ -213,6 +214,24 @@ def scenario(desc, nm):
             tos = {axname(a): [p for p in desc["pos"][a] if p != "center"][0] for a in A}
             out.append(("diff:multi", rec(lambda: g.diff(da, [axname(a) for a in A], to=tos, boundary={axname(a): "fill" for a in A}, fill_value={axname(A[0]): 2.0}), inv)))
             out.append(("min:default-to", rec(lambda: g.min(da, tuple(axname(a) for a in A), boundary="periodic"), inv)))
+        if kind in ("comodo", "ops") and len(A) == 3:
+            # two different partitions of the three axes are registered, with different products: which one is
+            # multiplied must not depend on the names (alphabetical order, length, hash)
+            d = {a: nm[f"dim:{a}:center"] for a in A}
+            r2 = np.random.default_rng(desc["seed"] + 5)
+            names = {}
+            for key in ((0, 1), (2,), (0,), (1, 2)):
+                mn = nm[f"M{len(names)}"]
+                dims = [d[A[k]] for k in key]
+                ds[mn] = (dims, r2.integers(1, 9, size=[ds.sizes[x] for x in dims]).astype(float))
+                names[key] = mn
+
+            def reg_and_integrate():
+                for key, mn in names.items():
+                    g.set_metrics(tuple(axname(A[k]) for k in key), mn)
+                return {"integrate": g.integrate(da, [axname(a) for a in A]), "metric": g.get_metric(da, [axname(a) for a in reversed(A)])}
+
+            out.append(("partition-choice", rec(reg_and_integrate, inv)))
         if kind == "metrics":
             a = A[0]
             p = [q for q in desc["pos"][a] if q != "center"][0]
